@@ -354,3 +354,33 @@ def r18(rr, repo):
         c, g = reregisters(n, 0)
         rr.ob('the entry block that drops kept sets puts every synchronized source that is out of the poller back (complete ones and those a balanced lock took out)', c is not None, za.mod, n,
               witness=(U(c)[:60] + ' under ' + ' && '.join(t for t, p in g if p)[:120]) if c is not None else 'registration only for complete sources', key='balanced-lock-released-at-entry')
+
+
+@rule('C06.R19', "a restarted source learns of its consumer from the consumer's repeated request: while recv() waits it re-sends its request every poll interval, and that is the only thing a publisher that "
+                 "was killed and started again ever hears from a consumer that holds HALF of a set of the old instance (the rest will never come). The request is therefore not withheld from a source "
+                 "whose set is incomplete: nothing in request() skips a source except, at most, one whose set is complete")
+def r19(rr, repo):
+    za = anchors(repo)
+    req = za.R_req
+    loops = [n for n in walk_scope(req) if isinstance(n, ast.For)]
+    pushes = [c for c in q.calls_in(req) if isinstance(c.func, ast.Attribute) and c.func.attr == 'send_push']
+    rr.floor('send_push calls in request()', len(pushes), 1, za.mod, req)
+    for c in pushes:
+        g = q.effective_guards(c, req)
+        bad, unknown = [], []
+        for t, pol in g:
+            tt = t.replace('"', "'")
+            complete_only = (("== 'all'" in tt and pol is False) or ("!= 'all'" in tt and pol is True)) and '.got' in tt      # skips only a source whose set is complete
+            if complete_only:
+                continue
+            if '.got' in tt or '.recvd' in tt or 'partial' in tt:
+                bad.append((t, pol))
+            else:
+                unknown.append((t, pol))
+        if bad:
+            rr.ob('the repeated request reaches every source whose set is not complete', False, za.mod, c, witness=f'sent only when {bad}', key='request-not-withheld-from-half-set')
+        elif unknown:
+            rr.unresolved('the request is sent under a condition this rule does not know', za.mod, c, witness=str(unknown)[:160], key='request-not-withheld-from-half-set')
+        else:
+            rr.ob('the repeated request reaches every source whose set is not complete', True, za.mod, c, witness=f'guards: {g}', key='request-not-withheld-from-half-set')
+    rr.sites += len(loops)
